@@ -141,7 +141,8 @@ def rewrite(text, fmt, rnd):
                 last_hmix = max(i for i, b in enumerate(out) if b[0].split()[1].upper() == "HMIX")
                 hi = last_hmix if d[0].split()[1].upper() == "HMIX" else len(out)
                 out.insert(rnd.randrange(hi + 1), d)
-    return "\n".join("\n".join(b) for b in out) + "\n"
+    # (the last line may lack its newline; trailing blanks after the last token)
+    return "\n".join("\n".join(b) for b in out) + rnd.choice(["\n", "\n", "", "\n\n", "   ", "\n   \n"])
 
 
 def reduce_text(text, rnd):
@@ -224,8 +225,10 @@ def run(chk):
                 runs = []
                 for un in (0, 1):
                     t2 = cli.config_block(0, 2, 1, 0, 0, un, 1) + vt
-                    runs.append(cli.run_cli(binary, fmt, t2, workdir=d, name="r_%d_%d_%d.in" % (idx, vi, un)))
-                    os.remove(runs[-1]["path"])
+                    via_stdin = kind == "rewrite" and (idx + vi + un) % 3 == 0   # the rewrite through standard input instead of a file: same content, same result
+                    runs.append(cli.run_cli(binary, fmt, t2, workdir=d, name="r_%d_%d_%d.in" % (idx, vi, un), use_stdin=via_stdin))
+                    if runs[-1]["path"]:
+                        os.remove(runs[-1]["path"])
                 os.remove(p)
                 res.append((kind, vt, api, runs))
             return idx, res
